@@ -224,10 +224,15 @@ class SimOps:
         stems = np.zeros(self.c_locs_len, dtype='int32') - 1  # default to -1: 'no fanout line'
         if strip_forks:
             for f in circuit.forks.values():
-                prev_line = f.ins[0]
-                while prev_line.driver.kind == '__fork__':
-                    prev_line = prev_line.driver.ins[0]
-                stem_idx = prev_line.index
+                if f in interface_dict: continue  # forks that are ports are evaluated like any other PI/PPI
+                stem_idx = self.zero_idx  # a fork (chain) without driver carries constant 0
+                n = f
+                while len(n.ins) > 0 and n.ins[0] is not None:
+                    stem_idx = n.ins[0].index
+                    n = n.ins[0].driver
+                    if n.kind != '__fork__' or n in interface_dict: break
+                else:
+                    stem_idx = self.zero_idx
                 for ol in f.outs:
                     if ol is not None:
                         stems[ol] = stem_idx
